@@ -91,6 +91,12 @@ func CloneTo[T any](maybeSelf MaybeDef[T], dest T) MaybeDef[T] {
 		y := reflect.New(starX.Type())
 		starY := y.Elem()
 		starY.Set(starX)
+		if IsNil(dest) {
+			// No target to copy into (Clone passes the zero value of T): the fresh pointer is the clone
+			if cloned, ok := y.Interface().(T); ok {
+				return JustGenerics(cloned)
+			}
+		}
 		reflect.ValueOf(dest).Elem().Set(y.Elem())
 		return JustGenerics(dest)
 	}
